@@ -10,6 +10,7 @@ package main
 import (
 	"bufio"
 	"bytes"
+	"context"
 	"encoding/base64"
 	"encoding/json"
 	"flag"
@@ -19,10 +20,12 @@ import (
 	"os"
 	"path/filepath"
 	"sync"
+	"sync/atomic"
 	"syscall"
 	"time"
 
 	"github.com/nuetzliches/hookaido/internal/app"
+	"github.com/nuetzliches/hookaido/internal/mcp"
 	"github.com/nuetzliches/hookaido/internal/pullapi"
 	"github.com/nuetzliches/hookaido/internal/queue"
 )
@@ -480,6 +483,179 @@ func cmdConcX(args []string) error {
 				})
 				emit(map[string]interface{}{"k": "cx", "scenario": "stale-ack", "goroutines": k, "answeredSuccess": okN})
 			}
+		}
+
+		// ---- (10) pull callers while the configuration flips between X and Y, which swap endpoint AND token between two routes:
+		// under X and under Y alike /e1 takes only tokA and /e2 only tokB; a decision that mixes the two takes the other
+		if round%2 == 0 {
+			mk := func(e1of, e2of string) string {
+				tokOf := map[string]string{"/e1": "tokA", "/e2": "tokB"}
+				pathOf := map[string]string{e1of: "/e1", e2of: "/e2"}
+				var b bytes.Buffer
+				b.WriteString("pull_api {\n  auth token raw:unused\n}\n")
+				for _, rt := range []string{"/a", "/b"} {
+					fmt.Fprintf(&b, "%s {\n  pull {\n    path %s\n    auth token raw:%s\n  }\n}\n", rt, pathOf[rt], tokOf[pathOf[rt]])
+				}
+				return b.String()
+			}
+			x, y := mk("/a", "/b"), mk("/b", "/a")
+			compiled, err := compileText(x)
+			if err != nil {
+				return err
+			}
+			rt, err := app.VerifNewRuntime(compiled, nil)
+			if err != nil {
+				return err
+			}
+			px, py := filepath.Join(dir, fmt.Sprintf("cxX%d", round)), filepath.Join(dir, fmt.Sprintf("cxY%d", round))
+			_ = os.WriteFile(px, []byte(x), 0o600)
+			_ = os.WriteFile(py, []byte(y), 0o600)
+			var stop atomic.Bool
+			var wrongAccept, wrongRefuse, reloads, asked int64
+			var wg sync.WaitGroup
+			wg.Add(1)
+			go func() {
+				defer wg.Done()
+				for i := 0; !stop.Load(); i++ {
+					if rt.Reload([]string{py, px}[i%2]) {
+						atomic.AddInt64(&reloads, 1)
+					}
+				}
+			}()
+			for g := 0; g < 8; g++ {
+				wg.Add(1)
+				go func(g int) {
+					defer wg.Done()
+					ep := []string{"/e1", "/e2"}[g%2]
+					good, bad := map[string]string{"/e1": "tokA", "/e2": "tokB"}[ep], map[string]string{"/e1": "tokB", "/e2": "tokA"}[ep]
+					for !stop.Load() {
+						rq := httptest.NewRequest("POST", "http://ex"+ep+"/dequeue", nil)
+						rq.Header.Set("Authorization", "Bearer "+bad)
+						if rt.AuthorizePull(rq) {
+							atomic.AddInt64(&wrongAccept, 1)
+						}
+						rq.Header.Set("Authorization", "Bearer "+good)
+						if !rt.AuthorizePull(rq) {
+							atomic.AddInt64(&wrongRefuse, 1)
+						}
+						atomic.AddInt64(&asked, 2)
+					}
+				}(g)
+			}
+			time.Sleep(120 * time.Millisecond)
+			stop.Store(true)
+			wg.Wait()
+			emit(map[string]interface{}{"k": "cx", "scenario": "pull-auth-during-reloads", "reloads": reloads, "asked": asked, "otherTokenAccepted": wrongAccept, "ownTokenRefused": wrongRefuse})
+		}
+
+		// ---- (11) producers keep a small drop_oldest queue full while consumers lease (1 h) and ack at once: an ack on a fresh
+		// lease never fails, because eviction takes queued messages only
+		{
+			name := fmt.Sprintf("cx-e-%d.db", round)
+			st, done := newStore(backend, name, func() (queue.Store, error) {
+				if backend == "memory" {
+					return queue.NewMemoryStore(queue.WithQueueLimits(4, "drop_oldest")), nil
+				}
+				return queue.NewSQLiteStore(filepath.Join(dir, name), queue.WithSQLiteQueueLimits(4, "drop_oldest"))
+			})
+			if st != nil {
+				var stop atomic.Bool
+				var ackFailed, acked, produced int64
+				var wg sync.WaitGroup
+				for g := 0; g < 6; g++ {
+					wg.Add(2)
+					go func(g int) {
+						defer wg.Done()
+						for i := 0; !stop.Load(); i++ {
+							if st.Enqueue(queue.Envelope{ID: fmt.Sprintf("e-%d-%d-%d", round, g, i), Route: "/p", Target: "pull", Payload: []byte("x")}) == nil {
+								atomic.AddInt64(&produced, 1)
+							}
+						}
+					}(g)
+					go func() {
+						defer wg.Done()
+						for !stop.Load() {
+							resp, err := st.Dequeue(queue.DequeueRequest{Route: "/p", Target: "pull", Batch: 1, LeaseTTL: time.Hour})
+							if err != nil {
+								continue
+							}
+							for _, it := range resp.Items {
+								if st.Ack(it.LeaseID) != nil {
+									atomic.AddInt64(&ackFailed, 1)
+								} else {
+									atomic.AddInt64(&acked, 1)
+								}
+							}
+						}
+					}()
+				}
+				time.Sleep(80 * time.Millisecond)
+				stop.Store(true)
+				wg.Wait()
+				emit(map[string]interface{}{"k": "cx", "scenario": "evict-vs-consumers", "backend": backend, "produced": produced, "acked": acked, "freshLeaseAckFailed": ackFailed})
+				done()
+			}
+		}
+
+		// ---- (12) several MCP sessions rewrite the same configuration file at once: an observer must only ever see one of the
+		// complete texts
+		if round%2 == 1 {
+			cfgPath := filepath.Join(dir, fmt.Sprintf("Hookaidofile.mcp%d", round))
+			texts := []string{"pull_api {\n  auth token raw:t\n}\n/w0 {\n  pull { path /pull/w0 }\n}\n"}
+			for i := 1; i <= 4; i++ {
+				texts = append(texts, fmt.Sprintf("pull_api {\n  auth token raw:t\n}\n/w%d {\n  pull { path /pull/w%d }\n}\n# %s\n", i, i, string(bytes.Repeat([]byte{'x'}, 2000*i))))
+			}
+			_ = os.WriteFile(cfgPath, []byte(texts[0]), 0o600)
+			known := map[string]bool{}
+			for _, t := range texts {
+				known[t] = true
+			}
+			var stop atomic.Bool
+			var strange int64
+			var owg sync.WaitGroup
+			owg.Add(1)
+			go func() {
+				defer owg.Done()
+				for !stop.Load() {
+					if b, err := os.ReadFile(cfgPath); err != nil || !known[string(b)] {
+						atomic.AddInt64(&strange, 1)
+					}
+				}
+			}()
+			failed := int64(0)
+			firstErr := ""
+			for rep := 0; rep < 10; rep++ {
+				fire(4, func(i int) {
+					var ob, ab bytes.Buffer
+					srv := mcp.NewServer(bytes.NewReader(frame(map[string]interface{}{"jsonrpc": "2.0", "id": 1, "method": "tools/call", "params": map[string]interface{}{"name": "config_apply",
+						"arguments": map[string]interface{}{"content": texts[i+1], "mode": "write_only"}}})), &ob, cfgPath, filepath.Join(dir, "none.db"),
+						mcp.WithRole(mcp.RoleAdmin), mcp.WithMutationsEnabled(true), mcp.WithPrincipal("ops@example"), mcp.WithAuditWriter(&ab))
+					_ = srv.Serve(context.Background())
+					for _, fr := range readFrames(ob.Bytes()) {
+						if res, ok := fr["result"].(map[string]interface{}); ok {
+							if b, _ := res["isError"].(bool); b {
+								if atomic.AddInt64(&failed, 1) == 1 {
+									if cs, ok := res["content"].([]interface{}); ok && len(cs) > 0 {
+										firstErr, _ = cs[0].(map[string]interface{})["text"].(string)
+									}
+								}
+							}
+						}
+					}
+				})
+			}
+			stop.Store(true)
+			owg.Wait()
+			final, _ := os.ReadFile(cfgPath)
+			leftovers := 0
+			if ents, err := os.ReadDir(dir); err == nil {
+				for _, e := range ents {
+					if len(e.Name()) > 1 && e.Name()[0] == '.' {
+						leftovers++
+					}
+				}
+			}
+			emit(map[string]interface{}{"k": "cx", "scenario": "mcp-writers", "strangeContentSeen": strange, "writersFailed": failed, "firstError": firstErr, "finalKnown": known[string(final)], "tempLeftovers": leftovers})
 		}
 
 		// ---- (9) a reload that raises the tolerance is held up while loading a later route's secret (a FIFO that nobody
